@@ -3,10 +3,11 @@ package checks
 import (
 	"errors"
 	"fmt"
-	"os"
-	"runtime/pprof"
 	"math/rand"
 	"net"
+	"os"
+	"runtime/pprof"
+	"strings"
 	"sync"
 	"sync/atomic"
 	"testing"
@@ -21,7 +22,7 @@ func TestC05(t *testing.T) {
 	mon.Main(t, mon.Check{
 		ID:    "C05",
 		Level: "exploration",
-		Rule: "full stack in real time: real mailbox.Server/Accept and mailbox.Client/Dial (GBN inside) over an in-memory hashmail relay (semantics of aperture's hashmail server), real NoiseGrpcConn handshakes on top, gRPC-like drivers (accept loop; dial loop that re-dials when a connection fails). Each session transfers a PRNG sequence of writes (sizes 0..65535 incl. 32767/32768/32769/65534/65535) in both directions with PRNG read-buffer sizes; after a connection failure the application restarts its transfer on the next connection. Relay faults until a cut-off: per-message drop and delay, Send/Recv stream errors at PRNG points (forcing the re-create-and-retry loops), NewCipherBox/RecvStream/SendStream failures. Oracles: on every secured connection the bytes read equal, position by position, the bytes the peer writes on its connection (prefix; any mismatch, duplicate or gap is a violation); after faults cease the transfer completes (possibly after re-dials) or the deadline miss is re-run alone with a 300 s deadline and only a reproduced silent hang with relay traffic still flowing is a violation (otherwise inconclusive); every CipherBox.Msg the relay ever saw is scanned for 24-byte windows of both plaintext streams and for the auth payload (raw/hex/base64). Non-trivial = a session with at least one injected fault that delivered bytes in both directions; distinct = (fault profile, sizes hash).",
+		Rule:  "full stack in real time: real mailbox.Server/Accept and mailbox.Client/Dial (GBN inside) over an in-memory hashmail relay (semantics of aperture's hashmail server), real NoiseGrpcConn handshakes on top, gRPC-like drivers (accept loop; dial loop that re-dials when a connection fails). Each session transfers a PRNG sequence of writes (sizes 0..65535 incl. 32767/32768/32769/65534/65535) in both directions with PRNG read-buffer sizes; after a connection failure the application restarts its transfer on the next connection. Relay faults until a cut-off: per-message drop and delay, Send/Recv stream errors at PRNG points (forcing the re-create-and-retry loops), NewCipherBox/RecvStream/SendStream failures. Oracles: on every secured connection the bytes read equal, position by position, the bytes the peer writes on its connection (prefix; any mismatch, duplicate or gap is a violation); after faults cease the transfer completes (possibly after re-dials) or the deadline miss is re-run alone with a 300 s deadline and only a reproduced silent hang with relay traffic still flowing is a violation (otherwise inconclusive); every CipherBox.Msg the relay ever saw is scanned for 24-byte windows of both plaintext streams and for the auth payload (raw/hex/base64). Non-trivial = a session with at least one injected fault that delivered bytes in both directions; distinct = (fault profile, sizes hash).",
 		Assumptions: []string{
 			"real time: progress verdicts follow the re-run rule of DESIGN 1.3; safety verdicts do not depend on time",
 			"the relay is a model of aperture's hashmail server (one reader and one writer per box, FIFO, errors as gRPC surfaces them)",
@@ -65,6 +66,14 @@ func runC05(c *mon.Case) {
 					c.Shard.Inconc(fmt.Sprintf("session seed %d missed its 75 s deadline once but completed on the re-run (load)", seeds[i]))
 				case r2.desync:
 					c.Shard.Violate("pairing-desync", fmt.Sprintf("after relay faults ceased the transfer neither completed nor failed visibly within 300 s (reproduced): the client completed the first handshake and moved to the key-derived rendezvous, the server did not complete it (act three lost or late) and stays on the passphrase rendezvous: %s", r2.progress), r2.rep)
+				case r2.quietTail >= 20*time.Second:
+					// Every live piece of the client has a timer of at most
+					// 10 s that ends in a relay operation (handshake resend,
+					// keepalive ping, re-dial), so a relay that has seen
+					// nothing for 20 s with the transfer incomplete means the
+					// client side is wedged.
+					r2.rep["goroutines_waiting_for_a_mutex_in_lnc_code"] = r2.stuck
+					c.Shard.Violate("silent-hang|quiet|"+r2.profile, fmt.Sprintf("after relay faults ceased the transfer neither completed nor failed within 300 s (reproduced) and the relay saw no operation at all for the last %v: %s", r2.quietTail.Round(time.Second), r2.progress), r2.rep)
 				case r2.relayActiveTail && !r2.anyVisibleFailureTail:
 					c.Shard.Violate("silent-hang|"+r2.profile, fmt.Sprintf("after relay faults ceased the transfer neither completed nor failed visibly within 300 s (reproduced): %s", r2.progress), r2.rep)
 				default:
@@ -100,6 +109,8 @@ type c05Result struct {
 	conns                 int
 	desync                bool
 	relayActiveTail       bool
+	quietTail             time.Duration
+	stuck                 []string
 	anyVisibleFailureTail bool
 	rep                   map[string]any
 }
@@ -319,6 +330,14 @@ func c05Session(seed int64, deadline time.Duration) *c05Result {
 	}
 	el := time.Since(t0)
 	res.relayActiveTail = el-time.Duration(lastOp.Load()) < 15*time.Second
+	if !res.completed {
+		res.quietTail = el - time.Duration(lastOp.Load())
+		for _, g := range eng.Census() {
+			if strings.Contains(g.State, "Mutex") && strings.Contains(g.Stack, "lightning-node-connect/") && len(res.stuck) < 8 {
+				res.stuck = append(res.stuck, g.Stack)
+			}
+		}
+	}
 	res.anyVisibleFailureTail = lastFail.Load() > 0 && el-time.Duration(lastFail.Load()) < 60*time.Second
 	res.progress = fmt.Sprintf("c2s %d/%d bytes, s2c %d/%d bytes, %d connections, last relay op %v ago, last visible failure %v, elapsed %v",
 		bytesA.Load(), totalA, bytesB.Load(), totalB, conns.Load(), (el - time.Duration(lastOp.Load())).Round(time.Millisecond), time.Duration(lastFail.Load()).Round(time.Millisecond), el.Round(time.Millisecond))
